@@ -125,6 +125,30 @@ def check_state(hist, model, tier):
     return fails, {"distinct_nontrivial": 1 if hist[1] else 0}
 
 
+def stray_compartments(model):
+    """absorption-chain compartments (DEPOT, TRANSITn) from which the central compartment cannot be reached"""
+    ode = model.statements.ode_system
+    if ode is None:
+        return []
+    names = list(ode.compartment_names)
+    central = ode.central_compartment.name
+    succ = {a: [b for b in names if b != a and ode.get_flow(ode.find_compartment(a), ode.find_compartment(b)) != 0] for a in names}
+    out = []
+    for a in names:
+        if not (a.startswith("TRANSIT") or a == "DEPOT"):
+            continue
+        seen, todo = {a}, [a]
+        while todo:
+            x = todo.pop()
+            for y in succ[x]:
+                if y not in seen:
+                    seen.add(y)
+                    todo.append(y)
+        if central not in seen:
+            out.append(a)
+    return out
+
+
 def check_transition(hist, model, lab, m2, outcome, tier):
     from vlib import ireval, mgraph
     from vlib.xeval import Undefined
@@ -164,6 +188,14 @@ def check_transition(hist, model, lab, m2, outcome, tier):
             if cat == "transits" and d == "absorption" and dv in ("FO", "INST"):
                 continue  # the depot comes and goes with the transit chain
             fails.append(f"frame: {lab} changed {d} from {before[d]} to {after[d]}")
+        # a category that the request reset (or left alone) is not half there: every absorption-chain compartment of the
+        # returned model still leads to the central compartment
+        try:
+            stray = stray_compartments(m2) if not stray_compartments(model) else []
+        except Exception:
+            stray = []
+        if stray:
+            fails.append(f"frame: {lab} leaves {', '.join(stray)} in the system with no path to the central compartment")
     elif lab in ("periph_add", "periph_remove"):
         want = before["peripherals"] + 1 if lab == "periph_add" else max(0, before["peripherals"] - 1)
         if after["peripherals"] != want:
@@ -189,7 +221,14 @@ def check_transition(hist, model, lab, m2, outcome, tier):
                     fails.append(f"idempotence: applying {lab} twice changes the model function: {d}")
             except (ireval.Unsupported, Undefined, ArithmeticError) as e:
                 fails.append(f"idempotence: after applying {lab} twice the model cannot be evaluated: {e}")
-    if lab in UNDO and m2.code != model.code:
+    # the undo request only leads back when the feature was not there before the request (lag_off after lag_on on a model that
+    # already had a lag time legitimately removes that lag time)
+    undo_leads_back = True
+    if lab in UNDO and UNDO[lab] in CATEGORY:
+        ucat, uval = CATEGORY[UNDO[lab]]
+        bv = before.get(ucat)
+        undo_leads_back = bv == uval or bv == (uval,)
+    if lab in UNDO and undo_leads_back and m2.code != model.code:
         back, outb = mgraph.apply(m2, UNDO[lab])
         if outb.startswith("crash"):
             fails.append(f"totality: {UNDO[lab]} after {lab} fails with an internal error: {outb[6:]}")
